@@ -114,6 +114,8 @@ type Hold struct {
 	ExpriedFlag uint16
 	Expried     uint16
 	ExpriedIn   int64 // expriedTime - current server second (may be huge for unlimited)
+	ExpriedAt   int64 // expriedTime as virtual seconds since the start of the execution (not part of Canon)
+	Owner       string // in-memory client whose connection the hold is bound to (notices go there)
 	StartAgo    int64
 	IsAof       bool
 	AofTime     uint8
@@ -132,6 +134,8 @@ type Waiter struct {
 	Expried     uint16
 	ExpriedFlag uint16
 	TimeoutIn   int64
+	TimeoutAt   int64 // timeoutTime as virtual seconds since the start of the execution (not part of Canon)
+	Owner       string
 	Internal    string
 }
 
@@ -216,10 +220,10 @@ func (s *Snapshot) Canon() string {
 	for _, k := range s.Keys {
 		fmt.Fprintf(&b, "K%d/%x L%d w%v m%d v%x %s|", k.DB, k.Key, k.Locked, k.Waited, k.Managers, k.Value, k.Internal)
 		for _, h := range k.Holds {
-			fmt.Fprintf(&b, "H%x/%x d%d c%d r%d f%x t%x e%x x%d in%d sa%d a%v at%d ak%d %s;", h.LockId, h.Req, h.Depth, h.Count, h.Rcount, h.Flag, h.TimeoutFlag, h.ExpriedFlag, h.Expried, h.ExpriedIn, h.StartAgo, h.IsAof, h.AofTime, h.AckCount, h.Internal)
+			fmt.Fprintf(&b, "H%x/%x d%d c%d r%d f%x t%x e%x x%d in%d sa%d a%v at%d ak%d %s o%s;", h.LockId, h.Req, h.Depth, h.Count, h.Rcount, h.Flag, h.TimeoutFlag, h.ExpriedFlag, h.Expried, h.ExpriedIn, h.StartAgo, h.IsAof, h.AofTime, h.AckCount, h.Internal, h.Owner)
 		}
 		for _, w := range k.Waiters {
-			fmt.Fprintf(&b, "W%x/%x c%d r%d f%x to%d t%x e%d ef%x in%d %s;", w.LockId, w.Req, w.Count, w.Rcount, w.Flag, w.Timeout, w.TimeoutFlag, w.Expried, w.ExpriedFlag, w.TimeoutIn, w.Internal)
+			fmt.Fprintf(&b, "W%x/%x c%d r%d f%x to%d t%x e%d ef%x in%d %s o%s;", w.LockId, w.Req, w.Count, w.Rcount, w.Flag, w.Timeout, w.TimeoutFlag, w.Expried, w.ExpriedFlag, w.TimeoutIn, w.Internal, w.Owner)
 		}
 		b.WriteString("\n")
 	}
